@@ -542,8 +542,8 @@ fn shell_case(ctx: &mut Ctx, rng: &mut Rng, _i: u64) {
 }
 
 pub fn run(ctx: &mut Ctx) {
-    let n = ctx.n(4000, 10_000);
+    let n = ctx.n(4000, 60_000);
     ctx.family("sequences", n, seq_case);
-    let ns = ctx.n(300, 1000);
+    let ns = ctx.n(300, 5000);
     ctx.family("shell", ns, shell_case);
 }
